@@ -590,6 +590,19 @@ impl Driver {
             self.drop_cache(true);
             return;
         }
+        if let Op::Gets { k, n } = op {
+            // a burst is n ordinary gets, each judged by every monitor
+            self.result.stats.inc("read_bursts");
+            for _ in 0..n {
+                self.op_index = idx;
+                self.step(Op::Get { k });
+                if self.dead || self.cut.is_none() {
+                    break;
+                }
+            }
+            self.op_index = idx + 1;
+            return;
+        }
         if let Op::ArmFault { site, nth } = op {
             self.armed = Some((site, nth));
             self.result.stats.inc("faults_armed");
@@ -652,7 +665,7 @@ impl Driver {
                 Op::InvalidateIf { p } => cut.invalidate_if(p),
                 Op::Advance { ns } => cut.advance(ns),
                 Op::Sync => cut.sync(),
-                Op::ArmFault { .. } => {}
+                Op::ArmFault { .. } | Op::Gets { .. } => {}
             }))
         };
         crate::types::disarm_fault();
@@ -895,7 +908,7 @@ impl Driver {
             let cut = self.cut.as_mut().unwrap();
             catch_unwind(AssertUnwindSafe(|| {
                 match op {
-                    Op::ArmFault { .. } => {}
+                    Op::ArmFault { .. } | Op::Gets { .. } => {}
                     Op::Insert { k, vid, w } => cut.insert(k, vid, w),
                     Op::Get { k } => got = Some(cut.get(k)),
                     Op::Contains { k } => contained = Some(cut.contains(k)),
